@@ -300,15 +300,46 @@ def cases(tier, seed):
             # the Go contact map places a fixed-frame point set on every atom: it is translation- but not rotation-invariant by
             # construction, and the statement's option list does not include it; only translations are presented there
             pres = [('rigid', {'translate_only': True}) if p[0] == 'rigid' else p for p in pres]
+        split = (tier == 'quick' and g == 0) or (tier != 'quick' and rnd.random() < 0.12)
+        if split:
+            # each atom next to the stretched bond (CB, the first side-chain atom beyond it) gets to be the first atom of the file
+            pres = [('permute', {'pstyle': 'rotate', 'rotate_by': 4}), ('permute', {'pstyle': 'rotate', 'rotate_by': 5}), ('hashseed', {})] + \
+                   ([('rigid', {})] if tier != 'quick' else [])
+            options = rnd.choice([['-ff', 'martini3001', '-elastic', '-p', 'backbone'], ['-ff', 'martini22', '-noscfix']]) if tier != 'quick' \
+                else ['-ff', 'martini3001', '-elastic', '-p', 'backbone']
+            out.append({'pdb': INPUTS_QUICK[seed % 3], 'options': options, 'presentations': pres, 'pseed': rnd.randrange(10 ** 6),
+                        'hashseed': rnd.choice([1, 2, 3, 12345]), 'split_first_residue': True})
         out.append({'pdb': pdb, 'options': options, 'presentations': pres, 'pseed': rnd.randrange(10 ** 6),
                     'hashseed': rnd.choice([1, 2, 3, 12345])})
     return out
+
+
+def split_first_residue(src, dst):
+    """The side chain of the first residue beyond CB is moved by 40 A along z, as when a molecule is split over a periodic
+    boundary in a simulation frame: intra-residue bonds of that residue are far longer than any distance criterion, the residue
+    holds together by its atom names only."""
+    keep = {'N', 'CA', 'C', 'O', 'OXT', 'CB', 'H', 'HN', 'H1', 'H2', 'H3', 'HA', 'HA1', 'HA2', 'HA3', 'HB1', 'HB2', 'HB3', 'HB'}
+    first = None
+    out = []
+    with open(src) as f:
+        for l in f:
+            if l.startswith(('ATOM', 'HETATM')):
+                key = (l[21], l[22:27])
+                first = first or key
+                if key == first and l[12:16].strip() not in keep:
+                    l = l[:46] + '%8.3f' % (float(l[46:54]) + 40.0) + l[54:]
+            out.append(l)
+    with open(dst, 'w') as f:
+        f.writelines(out)
 
 
 def run_case(params):
     b = harness.Batch()
     base = tempfile.mkdtemp(prefix='c11-')
     pdb = util.test_data_path(params['pdb'])
+    if params.get('split_first_residue'):
+        split_first_residue(pdb, os.path.join(base, 'split.pdb'))
+        pdb = os.path.join(base, 'split.pdb')
     try:
         ref_dir = os.path.join(base, 'ref')
         r = run_cli(pdb, params['options'], 'reference', {}, 0, 0, ref_dir)
@@ -373,6 +404,7 @@ def run_case(params):
                 continue
             changed = record.get('order_changed') or record.get('names_changed') or record.get('moved') or kind == 'hashseed'
             b.feat({'opt' + o: 1 for o in params['options'] if o.startswith('-') and not o[1:2].isdigit()})
+            b.feat('first_residue_split_over_periodic_boundary', int(bool(params.get('split_first_residue'))))
             b.feat({'pairs_compared': 1, 'pres_' + kind: 1, 'admissible_threshold_differences': adm,
                     'presentation_really_changed': int(bool(changed))})
             if changed and n_inter_res:
